@@ -1,6 +1,7 @@
 package main
 
 import (
+	"go/token"
 	"fmt"
 	"go/types"
 	"os"
@@ -37,6 +38,8 @@ type Program struct {
 	byMethod  map[string][]*ssa.Function
 	bySig     map[string][]*ssa.Function
 	fieldMut  map[string]bool
+	fieldFns  map[string][]*ssa.Function // struct field -> functions stored into it anywhere in the repository (nil entry: unknown value stored)
+	fieldFnsUnknown map[string]bool
 }
 
 func loadProgram(repo string, patterns []string) (*Program, error) {
@@ -444,6 +447,11 @@ func (P *Program) mayEffect(fn *ssa.Function, eff string) bool {
 		if !P.isRepoFunc(f) {
 			return false
 		}
+		if ct := P.contracts[f]; ct != nil && ct.Boundary[eff] {
+			// the declared gate for this effect (e.g. timestamp.GetTime for the clock): its own contract says when the
+			// source is consulted; callers are checked for reaching the source by any other route
+			return false
+		}
 		for _, b := range f.Blocks {
 			for _, in := range b.Instrs {
 				if eff == "maporder" {
@@ -474,16 +482,28 @@ func (P *Program) mayEffect(fn *ssa.Function, eff string) bool {
 					continue
 				}
 				cc := ci.Common()
-				if eff == "devwrite" {
-					if cc.IsInvoke() && (cc.Method.Name() == "WriteAt" || cc.Method.Name() == "Truncate") {
-						return true
-					}
+				if eff == "devwrite" && cc.IsInvoke() && (cc.Method.Name() == "WriteAt" || cc.Method.Name() == "Truncate") {
+					return true
+				}
+				{
 					if !cc.IsInvoke() && cc.StaticCallee() == nil {
 						if _, isB := cc.Value.(*ssa.Builtin); !isB {
 							// call through a function value: any repository function of that type may be the target;
 							// a function type that takes a device writer may also be a foreign function
+							if tg, ok := P.fieldFuncTargets(cc.Value); ok {
+								hit := false
+								for _, m := range tg {
+									if rec(m) {
+										hit = true
+									}
+								}
+								if hit {
+									return true
+								}
+								continue
+							}
 							if sg, ok := cc.Value.Type().Underlying().(*types.Signature); ok {
-								for i := 0; i < sg.Params().Len(); i++ {
+								for i := 0; eff == "devwrite" && i < sg.Params().Len(); i++ {
 									if devWriter(sg.Params().At(i).Type()) {
 										return true
 									}
@@ -635,6 +655,18 @@ func repoIfaceType(t types.Type) bool {
 }
 
 // dynMayEffect: may a call through a function value of this type reach a source of eff?
+func (P *Program) dynMayEffectV(v ssa.Value, eff string) bool {
+	if tg, ok := P.fieldFuncTargets(v); ok {
+		for _, m := range tg {
+			if P.mayEffect(m, eff) {
+				return true
+			}
+		}
+		return false
+	}
+	return P.dynMayEffect(v.Type(), eff)
+}
+
 func (P *Program) dynMayEffect(t types.Type, eff string) bool {
 	sg, ok := t.Underlying().(*types.Signature)
 	if !ok {
@@ -646,8 +678,6 @@ func (P *Program) dynMayEffect(t types.Type, eff string) bool {
 				return true
 			}
 		}
-	} else {
-		return true
 	}
 	P.mayEffect(nil, eff)
 	for _, m := range P.bySig[sigKey(sg)] {
@@ -710,4 +740,74 @@ func modifiesText(c *Contract) string {
 	}
 	sort.Strings(parts)
 	return strings.Join(parts, ",")
+}
+
+// fieldFuncTargets: for a call through a function value loaded from a struct field, the functions (closures, bound methods)
+// that repository code stores into that field. ok=false when some store puts a value there that is not a function literal,
+// a named function or a method value (then the caller falls back to "any function of that type").
+// Exported fields can also be assigned by users of the library: not considered (listed as an assumption).
+func (P *Program) fieldFuncTargets(v ssa.Value) ([]*ssa.Function, bool) {
+	ld, ok := v.(*ssa.UnOp)
+	if !ok || ld.Op != token.MUL {
+		return nil, false
+	}
+	fa, ok := ld.X.(*ssa.FieldAddr)
+	if !ok {
+		return nil, false
+	}
+	pt, ok := fa.X.Type().Underlying().(*types.Pointer)
+	if !ok {
+		return nil, false
+	}
+	n, _ := namedStruct(pt.Elem())
+	if n == nil {
+		return nil, false
+	}
+	P.immutMu.Lock()
+	defer P.immutMu.Unlock()
+	if P.fieldFns == nil {
+		P.fieldFns = map[string][]*ssa.Function{}
+		P.fieldFnsUnknown = map[string]bool{}
+		for fn := range P.allRepoFuncs() {
+			for _, b := range fn.Blocks {
+				for _, in := range b.Instrs {
+					st, ok := in.(*ssa.Store)
+					if !ok {
+						continue
+					}
+					if _, isSig := st.Val.Type().Underlying().(*types.Signature); !isSig {
+						continue
+					}
+					sfa, ok := st.Addr.(*ssa.FieldAddr)
+					if !ok {
+						continue
+					}
+					spt, ok := sfa.X.Type().Underlying().(*types.Pointer)
+					if !ok {
+						continue
+					}
+					sn, _ := namedStruct(spt.Elem())
+					if sn == nil {
+						continue
+					}
+					k := fieldKey(sn, sfa.Field)
+					switch x := st.Val.(type) {
+					case *ssa.Function:
+						P.fieldFns[k] = append(P.fieldFns[k], x)
+					case *ssa.MakeClosure:
+						P.fieldFns[k] = append(P.fieldFns[k], x.Fn.(*ssa.Function))
+					case *ssa.Const:
+						// nil
+					default:
+						P.fieldFnsUnknown[k] = true
+					}
+				}
+			}
+		}
+	}
+	k := fieldKey(n, fa.Field)
+	if P.fieldFnsUnknown[k] {
+		return nil, false
+	}
+	return P.fieldFns[k], true
 }
